@@ -94,7 +94,7 @@ def _pieces(node: ast.expr) -> list[ast.expr] | None:
         if k != len(args):
             return None
         return out
-    if isinstance(node, (ast.Constant, ast.Name, ast.Attribute, ast.Call, ast.FormattedValue)):
+    if isinstance(node, (ast.Constant, ast.Name, ast.Attribute, ast.Call, ast.FormattedValue, ast.Subscript)):
         return [node]
     return None
 
@@ -223,7 +223,18 @@ def check(model, tier):
             comps = [_uuid_component(x) for x in pieces]
             has_uuid = any(h for h, _ in comps)
             trunc = any(t for h, t in comps if h)
-            if not starts:
+            cut_prefix = isinstance(first_val, ast.Subscript) and isinstance(first_val.value, ast.Name) and first_val.value.id == prefix
+            if cut_prefix:
+                run.fail(
+                    "R19.1",
+                    inst,
+                    f"the generated name begins with a *part* of the requested prefix (`{src(first_val)[:50]}`): a long prefix is cut, so the name no longer begins with what was asked for, and "
+                    "two prefixes that differ only after the cut give names that cannot be told apart by prefix",
+                    fi=f,
+                    node=p.node,
+                    details=describe(p),
+                )
+            elif not starts:
                 run.fail("R19.1", inst, f"the generated name does not begin with the requested prefix `{prefix}` ({src(v)})", fi=f, node=p.node, details=describe(p))
             elif not has_uuid:
                 run.fail(
